@@ -50,17 +50,14 @@ pub fn check_queue(
     owners
 }
 
-/// Every live future that says it is linked must be in (exactly) one of the queues;
-/// every other live future's node must carry no links.
+/// Every live future that says it is linked must be in (exactly) one of the queues. (That the node of
+/// an unlinked future carries no links is a property of the list / heap module - C20 - and is
+/// deliberately not demanded here: C01 speaks about queue membership only.)
 pub fn check_membership(queues: &[&[NodeSnap]], live: &[LiveNode], out: &mut StepOut) {
     for l in live {
         let n = queues.iter().map(|q| q.iter().filter(|x| x.addr == l.node.addr).count()).sum::<usize>();
         if l.linked_expected && n == 0 {
             out.v("C01", "missing-member", format!("future (group {}, slot {}) is in poll state {} (linked) but is not in the wait queue", l.group, l.slot, l.node.tag));
-            out.corrupt = true;
-        }
-        if !l.linked_expected && l.node.links != [0; 4] {
-            out.v("C01", "stale-links", format!("future (group {}, slot {}) is not linked (poll state {}) but its node carries links {:x?}", l.group, l.slot, l.node.tag, l.node.links));
             out.corrupt = true;
         }
     }
